@@ -275,7 +275,7 @@ def _stale_probe_phase(world, ti, ex, cid):
     objrel = world.cfg.obj_rel(cid)
     data = removed = remover = refs_first = refs_last = None
     for n, t, kind, paths in _fs_events(ex):
-        if t == ti and paths and ((kind == "stat" and paths[0] == objrel) or
+        if t == ti and paths and ((kind in ("stat", "stat.strict") and paths[0] == objrel) or
                                   (kind in ("rename", "replace") and paths[-1] == objrel)):
             data = n
         if kind in ("rename", "replace", "remove", "unlink") and paths and paths[0] == objrel:
